@@ -89,6 +89,11 @@ def gen_cases(tier, seed):
     for k, order in enumerate((("request:enc-key", "encrypt", "request:enc-key", "request:sign-key"), ("encrypt", "request:enc-key", "request:sign-key"),
                                ("request:sign-key", "encrypt", "request:enc-key", "request:third-key"), ("encrypt", "encrypt", "request:third-key", "request:enc-key"))):
         cases.append({"id": "idp-side-history-%d" % k, "sig": ["idp-side-history", k], "kind": "idp-history", "order": list(order)})
+    # key roll-over on a long-lived SP: the issuer's metadata file changes and the source is refreshed in one of the ways a running process does
+    # it; afterwards only the key metadata holds NOW authenticates the issuer
+    for how in ("load-local-file", "imp-classlist-file", "load-local-directory", "imp-local-file"):
+        for opt in (1, 0):
+            cases.append({"id": "md-refresh-%s-%s" % (how, "on" if opt else "off"), "sig": ["md-refresh", how, opt], "kind": "md-refresh", "how": how, "opt": opt})
     # one SP shared by threads that verify messages of different issuers at once (yields injected); afterwards - and meanwhile - a message
     # naming one issuer but signed with another known entity's key must still be refused, and genuine ones accepted
     for k in range(3 if tier == "quick" else 24):
@@ -226,6 +231,8 @@ def run_case(case, ctx):
         return run_idp_history(case, ctx)
     if case.get("kind") == "threads":
         return run_threads_case(case, ctx)
+    if case.get("kind") == "md-refresh":
+        return run_md_refresh(case, ctx)
     if case["level"] == "advice-encrypted":
         return run_advice(case, ctx)
     (sp, spmd) = _sp(ctx, case["opt"], case["level"])
@@ -303,6 +310,67 @@ def run_case(case, ctx):
             "counters": {"verify_events": len(tried), "accepted": int(accepted), "must_accept_cells": int(must_accept),
                          "fallback_cells": int(fallback_ok), "fallback_accepted": int(fallback_ok and accepted)},
             "obs": {"tried": tried, "allowed": sorted(allowed)}}
+
+
+def run_md_refresh(case, ctx):
+    import os
+    how = case["how"]
+    eid = "https://idp-roll.example.org/md"
+    base = os.path.join(ctx.scratch, "c03-roll-%s-%s" % (how, case["opt"]))
+    path = base + ".xml"
+    if how == "load-local-directory":
+        os.makedirs(base + ".d", exist_ok=True)
+        path = os.path.join(base + ".d", "idp.xml")
+
+    def write(keys):
+        with open(path, "w") as f:
+            f.write(mdgen.entity({"eid": eid, "idp": {"keys": [("signing", k) for k in keys], "sso": [(B_REDIR, "https://idp-roll.example.org/sso")]}}))
+
+    def refresh(sp):
+        if how == "load-local-file":
+            sp.metadata.load("local", path)
+        elif how == "imp-classlist-file":
+            sp.metadata.imp([{"class": "saml2_tophat.mdstore.MetaDataFile", "metadata": [(path,)]}])
+        elif how == "imp-local-file":
+            sp.metadata.imp({"local": [path]})
+        else:
+            sp.metadata.load("local", os.path.dirname(path))
+    spc = fed.sp_conf(want_response_signed=True, idp=[eid], top={"only_use_keys_in_metadata": bool(case["opt"])})
+    sp = fed.make_sp(spc, [])
+    idp = fed.make_idp(fed.idp_conf(eid=eid, key_i=11), [fed.metadata_of(spc)])
+    viol, counters = [], {"refreshes": 0, "accepted": 0, "verify_events": 0, "must_accept_cells": 0, "fallback_cells": 0, "fallback_accepted": 0}
+
+    def send(ki):
+        xml = fed.issue(idp, {"givenName": ["Ann"]}, sign_response=False, sign_assertion=False)
+        d = xk.Doc(xml)
+        signed = xk.sign_element(xml, xk.SAMLP, "Response", d.root.attrs["ID"], fed.key(ki)[0], "rsa-sha256", None)
+        r, e = fed.deliver(sp, signed, {"id-req-1": "/"})
+        counters["accepted"] += int(r is not None)
+        return r is not None
+    history = []
+    try:
+        for gen_, keys in enumerate(([0], [3], [3, 7], [7])):
+            write(keys)
+            refresh(sp)
+            counters["refreshes"] += 1
+            history.append(keys)
+            for ki in (0, 3, 7, 9):
+                got = send(ki)
+                want = ki in keys
+                if got != want:
+                    viol.append({"key": "C03/accepted-under-key-not-held-for-issuer" if got else "C03/valid-signature-under-issuers-metadata-key-rejected",
+                                 "what": "long-lived SP, issuer metadata refreshed via %s through the generations %r: message signed with k%02d %s, metadata now holds %r" % (
+                                     how, history, ki, "accepted" if got else "refused", ["k%02d" % k for k in keys])})
+            if viol:
+                break
+    finally:
+        try:
+            os.unlink(path)
+            if how == "load-local-directory":
+                os.rmdir(os.path.dirname(path))
+        except OSError:
+            pass
+    return {"outcome": "violations" if viol else "history-held", "nontrivial": counters["accepted"] > 0, "violations": viol[:4], "counters": counters}
 
 
 def run_advice(case, ctx):
